@@ -86,7 +86,11 @@ process_job(IMB_MGR *p_mgr)
         IMB_JOB *job = IMB_SUBMIT_JOB(p_mgr);
 
         if (!job) {
-                const int err = imb_get_errno(p_mgr);
+                /*
+                 * only this manager's own status: the process-wide value may
+                 * hold the error of a manager used by another thread
+                 */
+                const int err = p_mgr->imb_errno;
 
                 /* check for error */
                 if (err != 0)
